@@ -211,6 +211,8 @@ type evmSim struct {
 	mutexHeldUntil    time.Duration
 	raceLogs          []int
 	watcher           *Watcher
+	holdGate          chan struct{} // non-nil while the consumer of hand-offs does not read
+	holdKick          chan struct{}
 	headServedInPhase uint64
 	reobsPhase        bool
 	aborting          bool
@@ -756,11 +758,24 @@ func (h evmHarness) Exec(p *simkit.Program) *simkit.Result {
 		w := NewEthWatcher("sim://evm", coreAddr, "evmsim", "evmsim", chain, msgC, nil, obsvReqC, false, &poll, !s.useFinal)
 		s.watcher = w
 		stopDrain := make(chan struct{})
-		go func() {
+		s.holdKick = make(chan struct{}, 1) // (made inside the bubble: a wait on it must count as durable)
+		go func() {                         // plays the signing pipeline, which may be busy for a while ("hold")
 			for {
+				s.mu.Lock()
+				g := s.holdGate
+				s.mu.Unlock()
+				if g != nil {
+					select {
+					case <-g:
+					case <-stopDrain:
+						return
+					}
+					continue
+				}
 				select {
 				case m := <-msgC:
 					s.onHandoff(m)
+				case <-s.holdKick:
 				case <-stopDrain:
 					return
 				}
@@ -886,6 +901,14 @@ func (s *evmSim) addTx(kind, level, variant int) *evmTx {
 	for i, l := range tx.logs {
 		l.idx = i
 	}
+	if kind == 6 {
+		// one transaction publishes two messages with different consistency levels
+		a, b := mk(coreAddr, msgTopic, seq), mk(coreAddr, msgTopic, seq+700)
+		b.level = uint8((level + 3 + variant%7) % 64)
+		b.idx = 1
+		tx.logs = append(tx.logs, a, b)
+		s.stats.Fault("two-levels-in-one-transaction")
+	}
 	s.txs = append(s.txs, tx)
 	return tx
 }
@@ -894,7 +917,7 @@ func (s *evmSim) runStep(st simkit.Step, obsvReqC chan *gossipv1.ObservationRequ
 	switch st.Op {
 	case "log":
 		s.mu.Lock()
-		tx := s.addTx(int(st.A)%6, int(st.B)%64, int(st.C))
+		tx := s.addTx(int(st.A)%7, int(st.B)%64, int(st.C))
 		b := s.newBlock(uint64(len(s.chain)))
 		s.chain = append(s.chain, b)
 		b.txs = append(b.txs, tx)
@@ -939,6 +962,25 @@ func (s *evmSim) runStep(st simkit.Step, obsvReqC chan *gossipv1.ObservationRequ
 		s.mu.Lock()
 		s.raceLogs = append(s.raceLogs, int(st.B)%64)
 		s.mu.Unlock()
+	case "hold":
+		// the signing pipeline stops (A=1) / resumes (A=0) taking messages from the watcher
+		s.mu.Lock()
+		if st.A == 1 && s.holdGate == nil {
+			s.holdGate = make(chan struct{})
+			s.stats.Fault("consumer-busy")
+			s.mu.Unlock()
+			select {
+			case s.holdKick <- struct{}{}:
+			default:
+			}
+		} else if st.A == 0 && s.holdGate != nil {
+			close(s.holdGate)
+			s.holdGate = nil
+			s.mu.Unlock()
+		} else {
+			s.mu.Unlock()
+		}
+		synctest.Wait()
 	case "subdrop":
 		s.mu.Lock()
 		if len(s.servers) > 0 {
@@ -1103,6 +1145,10 @@ func (s *evmSim) settleAndCheck() {
 	s.mu.Lock()
 	s.faults = nil
 	s.raceLogs = nil
+	if s.holdGate != nil {
+		close(s.holdGate)
+		s.holdGate = nil
+	}
 	s.mu.Unlock()
 	// injected stalls (40 s), the callers' deadlines (15 s) and supervisor back-off must run out first
 	s.pump(s.now() + 70*time.Second)
@@ -1224,7 +1270,7 @@ func (evmHarness) Gen(seed uint64, prop, tier string) *simkit.Program {
 	for i := 0; i < n; i++ {
 		switch r.Pick(8, 6, 6, 3, 3, 3, 1, 3) {
 		case 0:
-			add("log", int64(r.Pick(8, 2, 2, 2, 2, 2)), level(), int64(r.Intn(64)))
+			add("log", int64(r.Pick(8, 2, 2, 2, 2, 2, 2)), level(), int64(r.Intn(64)))
 		case 1:
 			d := int64(r.Pick(5, 3, 1, 1)) // 0..3 -> small, medium, big
 			nb := []int64{int64(r.Range(1, 3)), int64(r.Range(4, 15)), int64(r.Range(30, 59)), int64(r.Range(61, 150))}[d]
@@ -1242,7 +1288,20 @@ func (evmHarness) Gen(seed uint64, prop, tier string) *simkit.Program {
 		case 5:
 			add("fault", int64(r.Pick(2, 2, 4, 1, 1)), int64(r.Intn(3)), int64(r.Intn(3)))
 		case 6:
-			add("subdrop", 0, 0, 0)
+			if r.P(0.5) {
+				add("subdrop", 0, 0, 0)
+			} else {
+				// the signing pipeline is busy while a message becomes due and an RPC fault restarts the watcher
+				add("log", 0, int64(r.Intn(3)), int64(r.Intn(64)))
+				add("hold", 1, 0, 0)
+				add("head", int64(r.Range(3, 8)), 120, 0)
+				add("adv", 3*p.Cfg["poll_ms"], 0, 0)
+				add("fault", int64(r.Pick(2, 2, 0, 1, 1)), 0, int64(r.Intn(3)))
+				add("log", 0, level(), int64(r.Intn(64)))
+				add("adv", int64(r.Range(4, 10))*p.Cfg["poll_ms"], 0, 0)
+				add("hold", 0, 0, 0)
+				add("adv", 2*p.Cfg["poll_ms"], 0, 0)
+			}
 		case 7:
 			// a message whose confirmation empties the pending set, and a second one logged meanwhile
 			add("log", 0, level(), int64(r.Intn(64)))
